@@ -599,6 +599,7 @@ func nkinv(c *NoiseConn) bool {
 //@   loop 0 invariant nkinv(c) && bytesWritten >= 0 && bytesWritten <= len(b) && chunkSize >= 0 && chunkSize <= math.MaxUint16 &&
 //@          !pending(c.noise) && len(b) > math.MaxUint16
 //@   loop 0 invariant wirelen() >= old(wirelen()) && nseals() >= old(nseals())
+//@   at "return bytesWritten, err"#2 assert @C15 bytesWritten + payloadLeft(len(c.noise.nextBodySend)) == offsetin(chunk, b) + len(chunk)
 //@   ensures nkinv(c)
 //@   ensures @C15 0 <= n && n <= len(b)
 //@   ensures @C15 implies(err == nil, n == len(b) && !pending(c.noise))
